@@ -145,3 +145,9 @@ Definition wc_raw_flush (c : console) : console * (unit + ekind) :=
 Record wcstream : Set := mkWCS { wcs_raw : console; wcs_state : wstream }.
 Definition set_wcs_raw (x : wcstream) (c : console) : wcstream := mkWCS c (wcs_state x).
 Definition set_wcs_state (x : wcstream) (s : wstream) : wcstream := mkWCS (wcs_raw x) s.
+
+(* ---- vocabulary, second part: the constructors / accessors of WinconStream (tools/gen_fn_stream.py) ----
+   what the raw console stream answers besides taking coloured writes, as for the strip stream ([acfg], Model/Stream.v):
+   `raw.is_terminal()`; Stdout::lock / Stderr::lock: the guard writes to the same console *)
+Definition con_is_terminal (cf : acfg) (c : console) : bool := ac_tty cf.
+Definition con_lock (c : console) : console := c.
